@@ -36,7 +36,7 @@ Inductive wp_op : Type :=
 | WJoin (p : nat)
 | WCall (p : nat) (id : nat) (acts : list Z)
 | WAsync (p : nat) (id : nat) (acts : list Z)
-| WDestroy (p : nat)
+| WDestroy (p : nat) (q : bool)
 | TT                                   (* program of a task-thread slot (mode 0) *)
 | PT.                                  (* program of a pooled-thread slot (mode > 0) *)
 
@@ -593,17 +593,25 @@ Section STEP.
              | (st1, r) => (st1, res_of_send [40; n] r)
              end
     end.
-  Definition destroy_gate (st : S) (t : tid) : S * action U :=
-    if u_pushes (usr st) =? u_issued (usr st)
-    then let n := u_vcpus (usr st) in destroy_push (Datatypes.S (Z.to_nat n)) (alog st LDBegin) t n []
-    else (st, AYield [30]).
-  Definition destroy_step (st : S) (t : tid) (p : nat) (k : kont) : S * action U :=
+  Definition fin_total (st : S) : Z := fold_right (fun x a => ct_fin (snd x) + a) 0 (u_tasks (usr st)).
+  Definition destroy_gate (st : S) (t : tid) (p : nat) (q : bool) : S * action U :=
+    if usable st p then
+      if q && negb (fin_total st =? u_issued (usr st)) then
+        match exec_core st t (OUsleep 37) [] with
+        | (st1, ASleep exp _ _ [x]) => (st1, ASleep exp None None [31; x])
+        | (st1, AYield [x]) => (st1, AYield [31; x])
+        | (st1, _) => (st1, AStuck)
+        end
+      else if u_pushes (usr st) =? u_issued (usr st)
+      then let st1 := upd_u st (fun u => u_set_life u (u_exists u) true (u_issued u) (u_vcpus u)) in
+           let n := u_vcpus (usr st1) in destroy_push (Datatypes.S (Z.to_nat n)) (alog st1 LDBegin) t n []
+      else (st, AYield [30])
+    else (st, ARet SKIPPED 0).
+  Definition destroy_step (st : S) (t : tid) (p : nat) (q : bool) (k : kont) : S * action U :=
     match k with
-    | [] =>
-        if usable st p
-        then destroy_gate (upd_u st (fun u => u_set_life u (u_exists u) true (u_issued u) (u_vcpus u))) t
-        else (st, ARet SKIPPED 0)
-    | [30] => destroy_gate st t
+    | [] => destroy_gate st t p q
+    | [30] => destroy_gate st t p q
+    | [31; sub] => destroy_gate (fst (exec_core st t (OUsleep 37) [sub])) t p q
     | 40 :: n :: sk => destroy_push (Datatypes.S (Z.to_nat n)) st t n sk
     | [50] => destroy_push 1 st t 0 []
     | _ => (st, AStuck)
@@ -614,7 +622,7 @@ Section STEP.
     | WJoin p => d_step st t p k
     | WCall p id acts => submit_step st t p id acts true k
     | WAsync p id acts => submit_step st t p id acts false k
-    | WDestroy p => destroy_step st t p k
+    | WDestroy p q => destroy_step st t p q k
     | TT => tt_step st t k
     | PT => pt_step st t k
     end.
